@@ -55,7 +55,7 @@ func startPipeline(t *testing.T) *pipeline {
 		cfg.Log.RoutesFormat = "delta"
 		cfg.Registry.Consul = config.Consul{
 			Addr: p.fc.Addr(), Scheme: "http", KVPath: kvPath, NoRouteHTMLPath: "/fabio/noroute.html", TagPrefix: "urlprefix-",
-			ServiceStatus: p.accepted, ServiceMonitors: 1, PollInterval: p.poll,
+			ServiceStatus: p.accepted, ServiceMonitors: 1 + 2*(hx.Shard()%2), PollInterval: p.poll,
 		}
 		if p.strict {
 			cfg.Registry.Consul.ChecksRequired = "all"
